@@ -201,6 +201,52 @@ impl Family for Fragmented {
     }
 }
 
+/// a response whose single row spans several maximal packets
+struct LargeResponse {
+    ids: Vec<u8>,
+    sizes: Vec<usize>,
+}
+impl Family for LargeResponse {
+    fn name(&self) -> String {
+        "multi-packet-response-messages".into()
+    }
+    fn len(&self) -> u64 {
+        (self.ids.len() * self.sizes.len()) as u64
+    }
+    fn max_threads(&self) -> Option<usize> {
+        Some(6)
+    }
+    fn run(&self, idx: u64, st: &mut Stats) -> Result<(), Violation> {
+        let id = self.ids[idx as usize % self.ids.len()];
+        let size = self.sizes[idx as usize / self.ids.len()];
+        st.nontrivial += 1;
+        st.bump("large_response_messages");
+        let cols = Arc::new(vec![col("c", ColumnType::MYSQL_TYPE_BLOB, ColumnFlags::empty())]);
+        let prog = Arc::new(vec![WOp::Start(cols), WOp::WriteRow(vec![Val::Bytes(vec![b'L'; size])]), WOp::WriteRow(vec![Val::Bytes(vec![b's'])]), WOp::Finish]);
+        let conv = Conv::new(vec![q(b"big").seq(id), ping().seq(id.wrapping_add(9))]);
+        let s = conv.stream();
+        let stream = Arc::new(s.bytes);
+        let mut sim = sim_for(&stream, vec![]);
+        sim.log_ops = false;
+        let o = run_conn(sim, ConnCfg::new(Box::new(move |_, cb| match cb {
+            Cb::Query(_) => Behavior::Prog(prog.clone()),
+            _ => Behavior::Silent,
+        })));
+        if let ConnResult::Panic(l, m) = &o.res {
+            return Err(Violation::new(panic_key(l, m), format!("run_on panicked at {}: {}", l, m)));
+        }
+        if !o.res.is_ok() {
+            return Err(Violation::new("result-not-ok", format!("run_on returned {}", o.res.short())));
+        }
+        let d = decode_all(&o.sim.out, &conv, &s.last_seq, 2, false).map_err(seq_violation)?;
+        st.transitions += d.n_pkts as u64;
+        Ok(())
+    }
+    fn describe(&self, idx: u64) -> J {
+        json!({"request_sequence_id": self.ids[idx as usize % self.ids.len()], "row_cell_bytes": self.sizes[idx as usize / self.ids.len()]})
+    }
+}
+
 pub fn build(quick: bool) -> Check {
     let all_ids: Vec<u8> = (0..=255u8).collect();
     let all_lens: Vec<usize> = std::iter::once(1).chain(4..=520).collect();
@@ -231,15 +277,19 @@ pub fn build(quick: bool) -> Check {
         firsts: if quick { vec![0, 254, 255] } else { vec![0, 1, 253, 254, 255] },
         nfrag: if quick { vec![2] } else { vec![2, 3] },
     }));
+    families.push(Box::new(LargeResponse {
+        ids: if quick { vec![0, 253] } else { vec![0, 1, 251, 252, 253, 254, 255] },
+        sizes: if quick { vec![2 * MAXP + 10] } else { vec![MAXP + 10, 2 * MAXP + 10, 3 * MAXP + 10] },
+    }));
     Check {
         id: "C05",
         level: "model_checking",
-        rule: "request sequence id x response length (1 and 4..520 packets, text and binary), each followed by a second command with an unrelated id; handshake responses with every id; 2- and 3-fragment requests starting at ids around the wrap. Oracle: packet i of a reply carries (last request id + 1 + i) mod 256. Non-trivial = request id != 0 (the only id the test clients use).".into(),
+        rule: "request sequence id x response length (1 and 4..520 packets, text and binary), each followed by a second command with an unrelated id; handshake responses with every id; 2- and 3-fragment requests starting at ids around the wrap; responses whose single row spans 2..4 maximal packets. Oracle: packet i of a reply carries (last request id + 1 + i) mod 256. Non-trivial = request id != 0 (the only id the test clients use).".into(),
         assumptions: vec!["sequence ids of server packets are read by the independent framer (refwire)".into()],
         bounds: json!({"max_response_packets": 520, "fragments": if quick {2} else {3}}),
         exhaustive: true,
         caps_hit: vec![],
         families,
-        required: vec!["request_id_255", "replies_wrapping_past_255", "fragmented_requests"],
+        required: vec!["request_id_255", "replies_wrapping_past_255", "fragmented_requests", "large_response_messages"],
     }
 }
